@@ -40,6 +40,7 @@ type c08Run struct {
 	WeekOf    []int    `json:"weekOf"`   // week number of each file
 	Weeks     []int    `json:"weeks"`    // week numbers
 	MaxRuns   int      `json:"maxRuns"`
+	Late      []int    `json:"late"` // count files that appear only on "arrive:<id>"
 	Schedule  []string `json:"schedule"` // task names or "kill:<task>"
 	Replies   []string `json:"replies"`  // planned replies, in request order
 	Finish    string   `json:"finish"`
@@ -175,7 +176,11 @@ func c08One(t *testing.T, run *c08Run) {
 	os.MkdirAll(upload, 0777)
 	os.WriteFile(filepath.Join(w.dir, "mode"), []byte("on 2020-01-01"), 0666)
 	start := time.Date(2024, 1, 24, 12, 0, 0, 0, time.UTC)
-	for i, f := range run.Files {
+	isLate := map[int]bool{}
+	for _, f := range run.Late {
+		isLate[f] = true
+	}
+	writeCount := func(i, f int) {
 		end := c08WeekDate[run.WeekOf[i]]
 		endT, _ := time.Parse("2006-01-02", end)
 		meta := rt.V1Meta(endT.AddDate(0, 0, -7).Format(time.RFC3339), endT.Format(time.RFC3339), "prog", "v1.0.0", "go1.21.0", "linux", "amd64")
@@ -184,6 +189,11 @@ func c08One(t *testing.T, run *c08Run) {
 			t.Fatal(err)
 		}
 		os.WriteFile(filepath.Join(local, c08CountName(f)), data, 0666)
+	}
+	for i, f := range run.Files {
+		if !isLate[f] {
+			writeCount(i, f)
+		}
 	}
 	if run.Extras {
 		// a file that has not ended yet, and one that cannot be parsed
@@ -331,10 +341,33 @@ func c08One(t *testing.T, run *c08Run) {
 		p["i"], p["t"], p["victim"] = step, "kill", name
 		emit("obs", p)
 	}
+	arrivedSet := map[int]bool{}
+	doArrive := func(f int) {
+		if !isLate[f] || arrivedSet[f] {
+			return
+		}
+		arrivedSet[f] = true
+		for i, x := range run.Files {
+			if x == f {
+				writeCount(i, f)
+			}
+		}
+		step++
+		sched = append(sched, fmt.Sprintf("arrive:%d", f))
+		p := w.project()
+		p["i"], p["t"], p["file"] = step, "arrive", f
+		emit("obs", p)
+	}
 	alive := true
 	for _, e := range run.Schedule {
 		if strings.HasPrefix(e, "kill:") {
 			doKill(e[5:])
+			continue
+		}
+		if strings.HasPrefix(e, "arrive:") {
+			var f int
+			fmt.Sscanf(e[7:], "%d", &f)
+			doArrive(f)
 			continue
 		}
 		tk := s.Task(e)
@@ -361,6 +394,10 @@ func c08One(t *testing.T, run *c08Run) {
 		var tk *rt.Task
 		switch run.Finish {
 		case "random":
+			if len(run.Late) > 0 && rng.Intn(30) == 0 {
+				doArrive(run.Late[rng.Intn(len(run.Late))])
+				continue
+			}
 			tk = rs[rng.Intn(len(rs))]
 		case "randomkill":
 			if rng.Intn(60) == 0 {
